@@ -220,6 +220,7 @@ inline Op opColPoint(const std::string& dev, int vs, const Limits& L) {
         if (dev == "fewer" && n == 0) return false;
         if ((dev == "dup" || dev == "dup2") && (sh.pts.empty() || n == 0)) return false;
         if (dev == "nocol" && n == 0) return false;
+        if (dev == "ragged" && n < 2) return false;
         return true;
     };
     o.apply = [dev, vs](World& w, const WSnap& s, CallInfo& ci) {
@@ -231,10 +232,12 @@ inline Op opColPoint(const std::string& dev, int vs, const Limits& L) {
         else if (dev == "dup") names = {have.pts.front()};
         else if (dev == "dup2") names = {fresh(0), have.pts.back()};
         else if (dev == "nocol") names = {};
+        if (dev == "ragged") names = {fresh(0), fresh(1)};
         size_t cnt = n; if (dev == "fewer") cnt = n - 1; if (dev == "more") cnt = n + 1; if (dev == "none") cnt = 0;
         std::vector<Frame> fr;
-        for (size_t f = 0; f < cnt; ++f) { Shape sh; sh.pts = names; Frame x = buildFrame(sh, vs); for (size_t i = 0; i < names.size(); ++i) x.points_nonConst().point_nonConst(i).x(val(vs, i, 0) + 1000.0f * (float)(f + 1)); fr.push_back(x); }
-        for (size_t f = 0; f < fr.size(); ++f) { Shape sh; sh.pts = names; FrSnap in = intendedFrame(sh, vs); for (size_t i = 0; i < names.size(); ++i) in.pts[i].v[0] = fbits(val(vs, i, 0) + 1000.0f * (float)(f + 1)); ci.givenFrames.push_back(in); }
+        for (size_t f = 0; f < cnt; ++f) { Shape sh; sh.pts = names; if (dev == "ragged" && f + 1 == cnt) sh.pts.pop_back();   // the last frame brings only the first of the two new points
+            Frame x = buildFrame(sh, vs); for (size_t i = 0; i < sh.pts.size(); ++i) x.points_nonConst().point_nonConst(i).x(val(vs, i, 0) + 1000.0f * (float)(f + 1)); fr.push_back(x); }
+        for (size_t f = 0; f < fr.size(); ++f) { Shape sh; sh.pts = names; if (dev == "ragged" && f + 1 == fr.size()) sh.pts.pop_back(); FrSnap in = intendedFrame(sh, vs); for (size_t i = 0; i < sh.pts.size(); ++i) in.pts[i].v[0] = fbits(val(vs, i, 0) + 1000.0f * (float)(f + 1)); ci.givenFrames.push_back(in); }
         w.c->point(fr);
     };
     return o;
@@ -250,13 +253,14 @@ inline Op opColAnalog(const std::string& dev, int vs, const Limits& L) {
         if ((dev == "dup" || dev == "dup2") && (sh.chans.empty() || n == 0)) return false;
         if ((dev == "nocol" || dev == "sub_fewer" || dev == "sub_more") && n == 0) return false;
         if (dev == "sub_fewer" && s.o.h.subPerFrame == 0) return false;
+        if (dev == "ragged" && (n < 2 || s.o.h.subPerFrame == 0)) return false;
         return true;
     };
     o.apply = [dev, vs](World& w, const WSnap& s, CallInfo& ci) {
         ci.kind = K_COL_ANALOG; ci.dev = dev; Shape have = declaredShape(s.o); size_t n = s.o.frames.size();
         std::vector<std::string> names;
         auto fresh = [&](int k) { const char* cand[] = {"n", "m", "n2", "m2", "n3", "m3"}; int seen = 0; for (auto c : cand) { if (std::find(have.chans.begin(), have.chans.end(), c) == have.chans.end()) { if (seen == k) return std::string(c); ++seen; } } return std::string("n9"); };
-        if (dev == "ok2") names = {fresh(0), fresh(1)};
+        if (dev == "ok2" || dev == "ragged") names = {fresh(0), fresh(1)};
         else if (dev == "dup") names = {have.chans.front()};
         else if (dev == "dup2") names = {fresh(0), have.chans.back()};
         else if (dev == "nocol") names = {};
@@ -265,11 +269,12 @@ inline Op opColAnalog(const std::string& dev, int vs, const Limits& L) {
         size_t nsub = s.o.h.subPerFrame; if (dev == "sub_fewer") nsub--; if (dev == "sub_more") nsub++;
         std::vector<Frame> fr;
         for (size_t f = 0; f < cnt; ++f) {
-            Shape sh; sh.chans = names; sh.nsub = nsub; Frame x = buildFrame(sh, vs);
-            for (size_t sf = 0; sf < nsub; ++sf) for (size_t k = 0; k < names.size(); ++k) x.analogs_nonConst().subframe_nonConst(sf).channel_nonConst(k).data(aval(vs, sf, k) - 1000.0f * (float)(f + 1));
+            Shape sh; sh.chans = names; sh.nsub = nsub; if (dev == "ragged" && f + 1 == cnt) sh.chans.pop_back();
+            Frame x = buildFrame(sh, vs);
+            for (size_t sf = 0; sf < nsub; ++sf) for (size_t k = 0; k < sh.chans.size(); ++k) x.analogs_nonConst().subframe_nonConst(sf).channel_nonConst(k).data(aval(vs, sf, k) - 1000.0f * (float)(f + 1));
             fr.push_back(x);
         }
-        for (size_t f = 0; f < fr.size(); ++f) { Shape sh; sh.chans = names; sh.nsub = nsub; FrSnap in = intendedFrame(sh, vs); for (size_t sf = 0; sf < nsub; ++sf) for (size_t k = 0; k < names.size(); ++k) in.subs[sf][k].v = fbits(aval(vs, sf, k) - 1000.0f * (float)(f + 1)); ci.givenFrames.push_back(in); }
+        for (size_t f = 0; f < fr.size(); ++f) { Shape sh; sh.chans = names; sh.nsub = nsub; if (dev == "ragged" && f + 1 == fr.size()) sh.chans.pop_back(); FrSnap in = intendedFrame(sh, vs); for (size_t sf = 0; sf < nsub; ++sf) for (size_t k = 0; k < sh.chans.size(); ++k) in.subs[sf][k].v = fbits(aval(vs, sf, k) - 1000.0f * (float)(f + 1)); ci.givenFrames.push_back(in); }
         w.c->analog(fr);
     };
     return o;
